@@ -319,9 +319,13 @@ def SplitX.run (s : SplitX σ α ε) (flow : List α) : RunX σ α ε :=
         | some .assertFail => .assertFail),
       after (f.2.1 ++ r.dropped)⟩
 
+/-- `split.run(flow)` as a call of the attribute `run`: with no branches `__init__` rebound it to
+`_empty_run`, which reads the flow directly (no `islice`, no branch): it cannot raise -/
+def SplitX.runMethod (s : SplitX σ α ε) (flow : List α) : RunX σ α ε :=
+  if s.branches.isEmpty then ⟨[], .done, s.branches⟩ else s.run flow
+
 /-- what `split.run(flow)` yields before it ends (`_empty_run` when there are no branches) -/
 def SplitX.outputs (s : SplitX σ α ε) (flow : List α) : List α :=
-  if s.badBufsize then [] else
   if s.branches.isEmpty then emptyRun flow else Lena.C03.outputs (s.run flow).trace
 
 /-! ### the same branches with the exceptions forgotten (specification side) -/
@@ -496,7 +500,7 @@ stopping at the first run that raises (the objects keep their states between the
 def runsX (s : SplitX NStateX V String) : List (List V) → List (RunX NStateX V String)
   | [] => []
   | flow :: rest =>
-    let r := s.run flow
+    let r := s.runMethod flow
     match r.term with
     | .done => r :: runsX { s with branches := r.seqs } rest
     | _ => [r]
